@@ -68,13 +68,11 @@ func AddMetricsMetaEntry(entry *structs.MetricsMeta) error {
 		return err
 	}
 
+	// one write call for the entry and its newline: a crash between the two would leave a line without
+	// terminator, and the next appended entry would be glued to it and become unreadable
+	rawMeta = append(rawMeta, '\n')
 	if _, err := fd.Write(rawMeta); err != nil {
 		log.Errorf("AddMetricsMetaEntry: failed to write segmeta err=%v filename=%v rawMeta=%v", err, localMetricsMeta, rawMeta)
-		return err
-	}
-
-	if _, err := fd.WriteString("\n"); err != nil {
-		log.Errorf("AddMetricsMetaEntry: failed to write newline filename=%v: err=%v", localMetricsMeta, err)
 		return err
 	}
 	err = fd.Sync()
